@@ -75,7 +75,8 @@ def relpath_to(src_dir, dst):
 
 
 def gen_layout(rng, batch):
-    feats = set(f for f in FEATURES if rng.random() < 0.5)
+    # (include cycles are rare: each read of one costs a thousand nested conversions)
+    feats = set(f for f in FEATURES if rng.random() < (0.04 if f == 'nest_cycle' else 0.5))
     if batch in ('persistent', 'transient'):
         feats.update(f for f in PERSISTENT_FEATURES if rng.random() < (0.45 if batch == 'persistent' else 0.15))
         if batch == 'persistent' and not feats & set(PERSISTENT_FEATURES):
@@ -424,6 +425,15 @@ def generate(rng, tier, run):
     res = simfs.Resolver(fs)
     basenode = res.resolve(layout['base'])
     n_reads = rng.randint(8, 20) if tier == 'quick' else rng.randint(10, 40)
+    long_run = run % 100 in (93, 97)
+    name_pool = []
+    if long_run:
+        # volume: hundreds of reads through one converter, a pool of names coming back again and again
+        # between names that are asked only once (whatever is cached per name, directory or instance
+        # gets filled, evicted and asked again)
+        n_reads = rng.choice([120, 200, 320]) if tier == 'quick' else rng.choice([200, 500, 1000])
+        name_pool = [gen_name(rng, fs, res, basenode if basenode is not None else fs.root, layout)
+                     for _ in range(rng.randint(8, 30))]
     ops = []
     if rng.random() < 0.15:
         ops.append(['read', rng.choice(['a', 'a.tex', layout['base'] + '/a.tex', '../out/secret']), 'rif'])
@@ -480,16 +490,20 @@ def generate(rng, tier, run):
         else:
             if batch == 'transient' and rng.random() < 0.7:
                 ops.append(['fault', rng.randint(1, 14), rng.randrange(4)])
-            name = gen_name(rng, fs, res, basenode if basenode is not None else fs.root, layout)
+            if name_pool and rng.random() < 0.6:
+                name = rng.choice(name_pool)
+            else:
+                name = gen_name(rng, fs, res, basenode if basenode is not None else fs.root, layout)
             via = 'rif' if rng.random() < 0.65 else rng.choice(['input', 'include'])
             if any(x in name for x in ('nest', 'back', 'n2', 'nc', 'cyc', 'intro')) and rng.random() < 0.7:
                 via = rng.choice(['input', 'include'])
             ops.append(['read', name, via])
-    return {'batch': batch, 'layout': layout, 'ops': ops}
+    return {'batch': batch + ('-long' if long_run else ''), 'layout': layout, 'ops': ops}
 
 
 def _apply_mutation(fs, op, markers):
     kind = op[1]
+    fs.touch_clock()        # simulated time passes between the reads; what is modified gets new time stamps
     try:
         if kind == 'symlink':
             fs.remove(op[2])
@@ -556,7 +570,7 @@ def passes_link(fs, dirnode, name):
 def execute(program):
     from pylatexenc.latex2text import LatexNodes2Text
     layout = program['layout']
-    batch = program['batch']
+    batch = program['batch'].replace('-long', '')
     fs, markers = build_fs(layout)
     res = simfs.Resolver(fs)
     mount = simfs.Mount(fs, simfs.default_real_prefixes([core.repo_path(), core.VERIF_DIR]))
@@ -866,7 +880,7 @@ COMPONENTS = {
              'LatexNodes2Text subclass that only records the names read_input_file receives'],
 }
 TIERS = {
-    'quick': {'runs': 40000, 'wall_cap': 300},
+    'quick': {'runs': 36000, 'wall_cap': 300},
     'thorough': {'runs': 700000, 'wall_cap': 3600},
 }
 EXPECTED_PROBES = ['name-leaves-lexically', 'name-steps-on-link', 'extension-fallback-expected',
